@@ -5,6 +5,7 @@ import (
 	"encoding/json"
 	"sort"
 	"strconv"
+	"unicode/utf8"
 )
 
 // J2: abstract JSON documents. A []byte (or string) value may be backed by a JSON *value tree* instead of bytes.
@@ -23,14 +24,16 @@ const (
 
 // JNode is an immutable JSON value.
 type JNode struct {
-	Kind  JKind
-	B     *Term   // JBool
-	I     *Term   // JNum: 64-bit integer value (nil if Lit is used)
-	Lit   *StrV   // JNum: literal token for non-integer numbers
-	Str   *StrV   // JStr: decoded string
-	Elems []*JNode
-	Keys  []*StrV
-	Vals  []*JNode
+	Kind JKind
+	B    *Term // JBool
+	I    *Term // JNum: 64-bit integer value (nil if Lit is used)
+	Lit  *StrV // JNum: literal token for non-integer numbers
+	Str  *StrV // JStr: decoded string
+	// BadUTF8: the text this tree was parsed from contains bytes that are not UTF-8 (inside this value)
+	BadUTF8 bool
+	Elems   []*JNode
+	Keys    []*StrV
+	Vals    []*JNode
 }
 
 // JDocV is the heap payload of a byte array that holds a J2 document.
@@ -140,6 +143,11 @@ func (e *Engine) parseConcreteJSON(b []byte) (*JNode, bool) {
 	}
 	if dec.More() {
 		return nil, false
+	}
+	// encoding/json replaces bytes that are not UTF-8 by U+FFFD while decoding; the tree remembers that the text it
+	// stands for is not well-formed UTF-8 (utf8.Valid on the document answers from this flag)
+	if !utf8.Valid(b) {
+		node.BadUTF8 = true
 	}
 	return node, true
 }
